@@ -102,7 +102,7 @@ def audit(prop: str, timeout: int = 900) -> dict:
 
 # ------------------------------------------------------------- generated model (translator) gate
 # properties whose theorem files contain `..._code_...` theorems about BBGen (the translation of the Python sources)
-GEN_PROPS = {"C02", "C03", "C04", "C08", "C10", "C11", "C12"}
+GEN_PROPS = {"C01", "C02", "C03", "C04", "C08", "C10", "C11", "C12"}
 
 
 def _lean_env() -> dict:
@@ -148,30 +148,42 @@ def gen_gate(prop: str, timeout: int = 1500) -> dict:
         env = _lean_env()
         env["LEAN_PATH"] = f"{scratch}:{env['LEAN_PATH']}"
         (scratch / "BBGen").mkdir()
-        (scratch / "BBProofs").mkdir()
-        (scratch / "BBProps").mkdir()
+        (scratch / "BBScratch").mkdir()
         (scratch / "BBGen" / "Gen.lean").write_text(r.stdout)
-        chain = [("BBGen/Gen.lean", scratch / "BBGen" / "Gen.lean"),
-                 ("BBProofs/GenEq.lean", LEAN / "BBProofs" / "GenEq.lean"),
-                 ("BBProofs/GenEq2.lean", LEAN / "BBProofs" / "GenEq2.lean"),
-                 (f"BBProps/{prop}.lean", LEAN / "BBProps" / f"{prop}.lean")]
+        # Lean resolves a module in the first search-path entry that has its top-level directory, so the scratch copies of
+        # the proof files live under another package name (BBScratch) with their mutual imports rewritten; BBGen (one module)
+        # is shadowed as a whole, everything else comes from the built project
+        chain_mods = ["GenEq", "GenEq2", "GenEq3"]
+
+        def rewritten(txt: str) -> str:
+            for mname in chain_mods:
+                txt = re.sub(rf"^import BBProofs\.{mname}\s*$", f"import BBScratch.{mname}", txt, flags=re.M)
+            return txt
+        chain = [("BBGen/Gen.lean", None)]
+        for mname in chain_mods:
+            if (LEAN / "BBProofs" / f"{mname}.lean").exists():
+                chain.append((f"BBScratch/{mname}.lean", LEAN / "BBProofs" / f"{mname}.lean"))
+        chain.append((f"BBScratch/{prop}.lean", LEAN / "BBProps" / f"{prop}.lean"))
         for rel, srcp in chain:
-            res["stage"] = rel
+            res["stage"] = rel if srcp is None else str(srcp.relative_to(LEAN))
+            local = scratch / rel
+            if srcp is not None:
+                local.write_text(rewritten(srcp.read_text()))
             out = scratch / rel.replace(".lean", ".olean")
-            rr = subprocess.run(["lean", "-o", str(out), str(srcp)], cwd=LEAN, env=env, capture_output=True, text=True,
+            rr = subprocess.run(["lean", "-o", str(out), str(local)], cwd=scratch, env=env, capture_output=True, text=True,
                                 timeout=timeout)
             if rr.returncode != 0:
                 txt = rr.stdout + rr.stderr
                 res["log"] = txt[-3000:]
-                src = srcp.read_text()
+                src = local.read_text()
                 lines = sorted({int(m.group(1)) for m in re.finditer(r":(\d+):\d+: error", txt)})
-                res["broken"] = sorted({f"{rel}: {_enclosing_decl(src, ln)}" for ln in lines}) or [rel]
+                res["broken"] = sorted({f"{res['stage']}: {_enclosing_decl(src, ln)}" for ln in lines}) or [res["stage"]]
                 return res
         # axioms of the property theorems against the regenerated model
         names = theorems_of(prop)
         probe = scratch / "audit.lean"
-        probe.write_text(f"import BBProps.{prop}\nopen BB\n" + "".join(f"#print axioms {n}\n" for n in names))
-        rr = subprocess.run(["lean", str(probe)], cwd=LEAN, env=env, capture_output=True, text=True, timeout=timeout)
+        probe.write_text(f"import BBScratch.{prop}\nopen BB\n" + "".join(f"#print axioms {n}\n" for n in names))
+        rr = subprocess.run(["lean", str(probe)], cwd=scratch, env=env, capture_output=True, text=True, timeout=timeout)
         out = rr.stdout + rr.stderr
         bad = []
         for m in re.finditer(r"'(\S+)' depends on axioms: \[([^\]]*)\]", out, flags=re.S):
